@@ -49,8 +49,8 @@ theorem evenRoot (r1 : ℕ) (h : r1 < Ed.p) :
     refine ⟨by omega, by omega, ?_⟩
     rw [Nat.cast_sub (Nat.le_of_lt h), cast_p]; ring
   · have : (r1 % 2 == 1) = false := by simp [ho]
-    simp only [this]
-    exact ⟨h, by omega, rfl⟩
+    simp only [this, Bool.false_eq_true, if_false]
+    exact ⟨h, by omega, trivial⟩
 
 theorem sqrtSelect_sound (u v r0 r : ℕ) (hu : u < Ed.p) (hr0 : r0 < Ed.p) (h : sqrtSelect u v r0 = (true, r)) :
     r < Ed.p ∧ r % 2 = 0 ∧ (v : F) * r * r = u := by
@@ -61,7 +61,7 @@ theorem sqrtSelect_sound (u v r0 r : ℕ) (hu : u < Ed.p) (hr0 : r0 < Ed.p) (h :
     rw [cast_mod]; push_cast; rw [cast_mod]; push_cast; ring
   have hnF := cast_neg u hu
   generalize v * (r0 * r0 % Ed.p) % Ed.p = c at *
-  generalize (Ed.p - u) % Ed.p = n at *
+  generalize hn : (Ed.p - u) % Ed.p = n at *
   simp only [Bool.or_eq_true, beq_iff_eq] at hok
   -- it suffices to exhibit r1 < p with v r1² = u, r = evenRoot r1
   suffices hs : ∀ r1 : ℕ, r1 < Ed.p → (v : F) * r1 * r1 = u → r = (if r1 % 2 == 1 then Ed.p - r1 else r1) →
@@ -99,9 +99,8 @@ theorem sqrtSelect_sound (u v r0 r : ℕ) (hu : u < Ed.p) (hr0 : r0 < Ed.p) (h :
         apply h2
         rw [h1, hu0']
         subst hu0'
-        rename_i hn
         simp at hn
-        exact hn.symm
+        exact hn
       · have hsel : (c == n || c == n * sqrtm1 % Ed.p) = false := by simp [h2, h3]
         rw [hsel] at hr
         simp only [Bool.false_eq_true, if_false] at hr
@@ -112,5 +111,95 @@ theorem sqrtSelect_sound (u v r0 r : ℕ) (hu : u < Ed.p) (hr0 : r0 < Ed.p) (h :
   rw [hrr]
   refine ⟨e1, e2, ?_⟩
   rw [mul_assoc, e3, ← mul_assoc]; exact hv
+
+theorem sqrtCandidate_lt (u v : ℕ) : sqrtCandidate u v < Ed.p := Nat.mod_lt _ p_pos
+
+/-- what a successful `decompressDalek` returns: affine (z = 1), y = the low 255 bits reduced mod p, x an even root or its negation
+according to the sign bit, and (x, y) satisfies the curve equation (in the form y² = 1 + x² + d·x²·y²) -/
+theorem decompressDalek_sound (k : ℕ) (P : Pt) (h : decompressDalek k = some P) :
+    P.y = (k % 2 ^ 255) % Ed.p ∧ P.z = 1 ∧ P.x < Ed.p ∧ P.y < Ed.p ∧
+    ((P.y : F) * P.y = 1 + (P.x : F) * P.x + (d : F) * ((P.x : F) * P.x) * ((P.y : F) * P.y)) ∧
+    (∃ r, r < Ed.p ∧ r % 2 = 0 ∧ P.x = if k / 2 ^ 255 == 1 then (Ed.p - r) % Ed.p else r) := by
+  unfold decompressDalek at h
+  simp only [] at h
+  generalize hy : (k % 2 ^ 255) % Ed.p = y at h
+  have hylt : y < Ed.p := hy ▸ Nat.mod_lt _ p_pos
+  have huF : (((y * y % Ed.p + Ed.p - 1) % Ed.p : ℕ) : F) = (y : F) * y - 1 := by
+    rw [cast_mod, Nat.cast_sub (by have := p_pos; omega)]; push_cast; rw [cast_mod, cast_p]; push_cast; ring
+  have hvF : (((y * y % Ed.p * d + 1) % Ed.p : ℕ) : F) = (y : F) * y * d + 1 := by
+    rw [cast_mod]; push_cast; rw [cast_mod]; push_cast; ring
+  have hult : (y * y % Ed.p + Ed.p - 1) % Ed.p < Ed.p := Nat.mod_lt _ p_pos
+  generalize (y * y % Ed.p + Ed.p - 1) % Ed.p = u at *
+  generalize (y * y % Ed.p * d + 1) % Ed.p = v at *
+  cases hsr : sqrtRatioI u v with
+  | mk ok r =>
+    rw [hsr] at h
+    cases ok with
+    | false => simp at h
+    | true =>
+      simp only [Bool.not_true, Bool.false_eq_true, if_false, Option.some.injEq] at h
+      obtain ⟨hr1, hr2, hr3⟩ := sqrtSelect_sound u v _ r hult (sqrtCandidate_lt u v) hsr
+      subst h
+      simp only []
+      have hxlt : (if k / 2 ^ 255 == 1 then (Ed.p - r) % Ed.p else r) < Ed.p := by
+        split
+        · exact Nat.mod_lt _ p_pos
+        · exact hr1
+      have hxsq : (((if k / 2 ^ 255 == 1 then (Ed.p - r) % Ed.p else r : ℕ)) : F) *
+          ((if k / 2 ^ 255 == 1 then (Ed.p - r) % Ed.p else r : ℕ) : F) = (r : F) * r := by
+        split
+        · rw [cast_neg r hr1]; ring
+        · rfl
+      refine ⟨trivial, trivial, hxlt, hylt, ?_, r, hr1, hr2, by first | rfl | trivial⟩
+      rw [hxsq]
+      rw [hvF, huF] at hr3
+      linear_combination (-1 : F) * hr3
+
+theorem compress_affine (P : Pt) (hz : P.z = 1) (hx : P.x < Ed.p) (hy : P.y < Ed.p) :
+    compress P = P.y + (P.x % 2) * 2 ^ 255 := by
+  unfold compress
+  simp only [hz, inv_one, Nat.mul_one, Nat.mod_eq_of_lt hx, Nat.mod_eq_of_lt hy]
+
+/-- unfolding of acceptance: length 32, the permissive decompression succeeds, and the recompressed bytes are the input -/
+theorem publicAccept_iff (b : Bytes) : publicAccept b = true ↔
+    b.length = 32 ∧ ∃ P, decompressDalek (leNat b) = some P ∧ encodePt P = b := by
+  unfold publicAccept
+  by_cases hlen : b.length = 32
+  · have hne : (b.length != 32) = false := by simp [hlen]
+    rw [hne]
+    cases hd : decompressDalek (leNat b) with
+    | none => simp
+    | some P => simp [hlen]
+  · have hne : (b.length != 32) = true := by simp [hlen]
+    rw [hne]; simp [hlen]
+
+theorem publicAccept_sound (b : Bytes) (h : publicAccept b = true) :
+    b.length = 32 ∧ leNat b % 2 ^ 255 < Ed.p ∧
+    ∃ x, x < Ed.p ∧
+      ((leNat b % 2 ^ 255) * (leNat b % 2 ^ 255)) % Ed.p
+        = (1 + x * x + d * (x * x) * ((leNat b % 2 ^ 255) * (leNat b % 2 ^ 255))) % Ed.p ∧
+      x % 2 = leNat b / 2 ^ 255 ∧ ¬ (x = 0 ∧ leNat b / 2 ^ 255 = 1) := by
+  obtain ⟨hlen, P, hd, henc⟩ := (publicAccept_iff b).mp h
+  obtain ⟨hy, hz, hxlt, hylt, hcurve, _⟩ := decompressDalek_sound _ P hd
+  have hc := compress_affine P hz hxlt hylt
+  have hplt := p_lt
+  have hclt : compress P < 256 ^ 32 := by
+    rw [hc, show (256 : ℕ) ^ 32 = 2 ^ 256 by norm_num]
+    have : P.x % 2 < 2 := Nat.mod_lt _ (by norm_num)
+    omega
+  have hk : leNat b = compress P := by
+    rw [← henc]; unfold encodePt; exact leNat_toBytesLE 32 _ hclt
+  rw [hc] at hk
+  have hx2 : P.x % 2 < 2 := Nat.mod_lt _ (by norm_num)
+  have hlow : leNat b % 2 ^ 255 = P.y := by rw [hk]; omega
+  have hhigh : leNat b / 2 ^ 255 = P.x % 2 := by rw [hk]; omega
+  refine ⟨hlen, by rw [hlow]; exact hylt, P.x, hxlt, ?_, hhigh.symm, ?_⟩
+  · rw [hlow]
+    apply (cast_eq_iff _ _).mp
+    push_cast
+    exact hcurve
+  · rintro ⟨h0, h1⟩
+    rw [hhigh, h0] at h1
+    simp at h1
 
 end Monero.Keys
